@@ -506,6 +506,8 @@ def make_recorder_class():
             self.log, self.hard_limit, self.iterations = log, hard_limit, 0
             self.tuner = None
             self.at_exit = None
+            self.observe = None    # (backend, params): record observables at every iteration end
+            self.loop_obs = []
 
         def on_tuning_start(self, tuner):
             self.tuner = tuner
@@ -526,6 +528,19 @@ def make_recorder_class():
 
         def on_loop_end(self):
             self.log(("cb_loop_end",))
+            if self.observe is not None and self.tuner is not None:
+                # what the user's stop criterion refers to, at the end of EVERY iteration (whether or not the tuner
+                # evaluates the criterion there): counters from the public TuningStatus API, statistics of the
+                # delivered results and the scripted extra criterion from the harness itself
+                backend, params = self.observe
+                st = self.tuner.tuning_status
+                budget = params.get("polls_budget")
+                self.loop_obs.append(dict(
+                    started=int(st.num_trials_started), completed=int(st.num_trials_completed),
+                    finished=int(st.num_trials_finished), failed=int(st.num_trials_failed),
+                    truth=dict(evaluations=backend.truth["evaluations"], min_m=backend.truth["min_m"],
+                               max_m=backend.truth["max_m"], cost=float(sum(backend.truth["cost_by_trial"].values()))),
+                    extra=None if budget is None else bool(backend.n_polls >= budget)))
 
         def on_fetch_status_results(self, trial_status_dict, new_results):
             self.log(("cb_fetch", [[t, status_name(v[1])] for t, v in trial_status_dict.items()],
@@ -618,6 +633,7 @@ def run_tuner(params, script, scheduler_factory=None, hard_limit=400):
     else:
         scheduler = record_scheduler(scheduler_factory(), log)
     recorder = make_recorder_class()(log, hard_limit=hard_limit)
+    recorder.observe = (backend, params)
     crit = dict(params.get("criterion") or {})
     kw = {k: crit.get(k) for k in CRITERION_FIELDS}
     for k in ("min_metric_value", "max_metric_value"):
@@ -670,7 +686,8 @@ def run_tuner(params, script, scheduler_factory=None, hard_limit=400):
                             evaluations=status.overall_metric_statistics.count, cost=float(status.cost))
             snapshot = dict(workers=backend.worker_statuses(), occupancy=list(backend.occupancy_checks),
                             iterations=recorder.iterations, n_trials=len(backend.trial_ids), at_exit=recorder.at_exit,
-                            criterion_obs=list(criterion.observations), failed_in_poll=list(backend.failed_in_poll))
+                            criterion_obs=list(criterion.observations), failed_in_poll=list(backend.failed_in_poll),
+                            loop_obs=list(recorder.loop_obs))
             first_len = len(trace)
             second_outcome = None
             if params.get("rerun") and outcome == ["normal"]:
